@@ -180,6 +180,11 @@ def run(chk):
             else:
                 chk.violation("C17.table", keep[0], K.short(keep[0]), "if req._body is not req._EMPTY_BODY: data = req._body",
                               "the preserve branch re-sends `req._body` even when the request had no body: the empty-payload sentinel counts as data, so a body-less GET/HEAD/OPTIONS redirected by 301/302/307/308 gains `Content-Length: 0` and `Content-Type: application/octet-stream` on the next hop")
+        if "hdrs.TRANSFER_ENCODING" in body:
+            chk.ok("C17.table", rwi, "rewrite branch: a caller-supplied Transfer-Encoding header is dropped together with the body")
+        else:
+            chk.violation("C17.table", rwi, norm.raw(rwi.test), "headers.popall(hdrs.TRANSFER_ENCODING, None)",
+                          "a caller-supplied `Transfer-Encoding: chunked` header survives the 301/302/303 rewrite to a body-less GET: the GET announces a chunked body that is never terminated and the target server's handler hangs")
         # the expectation goes with the body it announced
         if "expect100 = False" in body and "hdrs.EXPECT" in body:
             chk.ok("C17.table", rwi, "rewrite branch: Expect: 100-continue is dropped together with the body")
